@@ -24,6 +24,7 @@ def plan(tier, seed):
             for m in (None, 'periodic')]
     return {
         'groups': gs,
+        'lean_lemmas': ['equivariant_comp', 'equivariant_iter'],
         'native': [('oracle_dwt.py', [seed], 'oracle: spec swt1 vs pywt.swt (levels 1-3)'),
                    ('bounded.py', [write_jobs('C13', jobs), seed], 'bounded: real SWTForward vs pywt.swt2, and circular-shift equivariance on the real module')],
         'level': 'other', 'trusted_base': TRUSTED,
